@@ -25,7 +25,7 @@ ASSUMPTIONS = [
     "documented prepared states come from RefGauss / the Ket handed in; The Walrus converts Gaussian references to Fock",
 ]
 REQUIRED_MONITORS = ["spectators:gaussian", "spectators:bosonic", "spectators:fock-pure", "spectators:fock-mixed",
-                     "prep-target:gaussian", "prep-target:bosonic", "prep-target:fock-pure", "special-probes"]
+                     "prep-target:gaussian", "prep-target:bosonic", "prep-target:fock-pure", "special-probes", "spectators:fock(ket representation)", "delete:gaussian", "delete:bosonic", "delete:fock-pure"]
 
 
 def load():
@@ -78,6 +78,9 @@ def add_special(rng, spec, backend, D):
     # something afterwards so that the special op's own effect on later probes is exercised too
     a = int(rng.integers(n))
     cmds.append({"op": "Rgate", "p": [float(rng.uniform(0, 6))], "m": [a], "dag": False})
+    if n >= 2 and rng.random() < 0.5:
+        k = int(rng.integers(1, n))
+        cmds.append({"op": "Del", "m": sorted(int(x) for x in rng.choice(n, k, replace=False))})
     return spec
 
 
@@ -87,7 +90,12 @@ def gen_case(rng, simrun, backend):
     allow = {"fock": simrun.FOCK_OK - {"Interferometer", "GaussianTransform", "Gaussian"},
              "gaussian": simrun.GAUSSIAN_OK - {"Gaussian"},
              "bosonic": simrun.BOSONIC_OK - {"Gaussian"}}[backend]
-    spec = simrun.gen_program(rng, gen, n=n, small=fock, allow=allow, length=int(rng.integers(4, 13)))
+    keep_pure = fock and rng.random() < 0.5
+    if keep_pure:
+        allow = allow - set(simrun.PREPS) - {"LossChannel"}
+    spec = simrun.gen_program(rng, gen, n=n, small=fock, allow=allow, length=int(rng.integers(4, 13)), prefix=not keep_pure)
+    if keep_pure:
+        spec["cmds"] = simrun.pure_prefix(rng, n) + spec["cmds"]
     D = 9 if n <= 2 else 7
     spec = add_special(rng, spec, backend, D)
     return {"spec": spec, "hbar": float(rng.choice([2.0, 2.0, 0.7])), "backend": backend, "cutoff": D}
